@@ -14,7 +14,9 @@ use crate::trace::{Event, Op};
 /// Inserted after the fact so that every check's own bookkeeping stays as it is; the
 /// executors' models follow the repeated lines dynamically.
 ///  * the session's language is switched away and back between two texts (set_language twice).
-pub fn session_variants(r: &mut Rng, events: &mut Vec<Event>, rerun_den: u64, repeat_den: u64) {
+///  * (C04 only, `format_den` > 0) the values of the session's last result are formatted again
+///    through the public `format_result` between two texts.
+pub fn session_variants(r: &mut Rng, events: &mut Vec<Event>, rerun_den: u64, repeat_den: u64, format_den: u64) {
     let mut out: Vec<Event> = Vec::with_capacity(events.len() + 8);
     let n = events.len();
     let mut lang_of: std::collections::BTreeMap<u8, String> = std::collections::BTreeMap::new();
@@ -37,6 +39,9 @@ pub fn session_variants(r: &mut Rng, events: &mut Vec<Event>, rerun_den: u64, re
             // never between a session step and the re-creation of that session
             let next_same_new = matches!(events.get(i + 1), Some(e) if e.actor == ev.actor && matches!(e.op, Op::SessionNew { .. }));
             if next_same_new { continue; }
+            if format_den > 0 && r.chance(1, format_den) {
+                out.push(Event { actor: ev.actor, op: Op::SessionFormat, clock: ClockScript::Frozen { t: next_t } });
+            }
             if text.lines.len() == 1 && !text.trailing_nl && rerun_den > 0 && r.chance(1, rerun_den) {
                 out.push(Event { actor: ev.actor, op: Op::SessionRerun, clock: ClockScript::Frozen { t: next_t } });
             } else if repeat_den > 0 && r.chance(1, repeat_den) {
